@@ -89,6 +89,10 @@ func (def *sliceAsList) getKey(item reflect.Value, m meta.Meta, keyMeta []meta.L
 			return nil, nil, fmt.Errorf("%w when get key", err)
 		}
 		nvKey[i] = hnd.Val
+		if hnd.Val == nil {
+			// an item whose key leaf holds nothing: it has no key to be found by, but it can be read
+			continue
+		}
 		switch x := ref2.(type) {
 		case *Node:
 			// use opts to help coerse value to right
@@ -117,7 +121,7 @@ func (def *sliceAsList) findByKey(m meta.Meta, target []val.Value, keyMeta []met
 			return notfound, empty, err
 		}
 		for i, v := range candidateKey {
-			if v.Value() != target[i].Value() {
+			if v == nil || target[i] == nil || v.Value() != target[i].Value() {
 				break
 			}
 			isLastKey := i == len(keyMeta)-1
